@@ -10,7 +10,7 @@ from __future__ import annotations
 
 import ast
 
-from ..astutil import body_always_raises, calls_in, dotted, enclosing_stmt, is_within, kwarg, src, walk_local
+from ..astutil import deref, body_always_raises, calls_in, dotted, enclosing_stmt, is_within, kwarg, src, walk_local
 from ..cfg import cfg_of
 from ..loader import AnalysisError
 from ..terms import Evaluator, alts, contains, find, show, strip_sites, walk
@@ -236,6 +236,38 @@ def _anc(n):
         cur = getattr(cur, '_parent', None)
 
 
+def r1b_header_follows_columns(ctx):
+    """the header of a listing is built for the same columns, in the same order, as the cells: the label tables are looked
+    up per selected column (`LABELS[column]`), never iterated on their own"""
+    corpus = ctx.corpus
+    cls = repo_cls(corpus)
+    tables = {n for c in corpus.mro(cls) for n in c.consts if n.endswith('COLUMN_LABELS')}
+    ctx.floor('C15.R1', 'column label tables', len(tables), 2)
+    for cmd in ('list_snapshots', 'list_files'):
+        f = corpus.method(cls, cmd)
+        ctx.analysed(f)
+        bad = []
+        for n in ast.walk(f.node):
+            it = None
+            if isinstance(n, (ast.For, ast.AsyncFor)):
+                it = n.iter
+            elif isinstance(n, ast.comprehension):
+                it = n.iter
+            if it is None:
+                continue
+            it = deref(f.node, it) if isinstance(it, ast.Name) else it
+            if any(isinstance(a, ast.Attribute) and a.attr in tables for a in ast.walk(it)):
+                bad.append(n)
+        ctx.check(
+            not bad,
+            'C15.R1',
+            f'{func_label(f)}|header-follows-selected-columns',
+            loc(f, bad[0]) if bad and hasattr(bad[0], 'lineno') else loc(f, f.node),
+            f'{cmd}: header labels are looked up for the selected columns (the label table itself is not iterated)',
+            f'{cmd}: the header is produced by iterating the label table `{src(bad[0].iter, 50) if bad else ""}` (its canonical order) while the cells follow the caller\'s column order: values appear under the wrong headings',
+        )
+
+
 def r3_regex(ctx):
     corpus = ctx.corpus
     cls = repo_cls(corpus)
@@ -454,6 +486,7 @@ def r5_quantities(ctx):
 
 def run(ctx):
     r1_one_name(ctx)
+    r1b_header_follows_columns(ctx)
     r2_order(ctx)
     r3_regex(ctx)
     r4_refusal(ctx)
